@@ -705,6 +705,16 @@ class GexPhase(Harness):
         yield 'at-most-one-kexinit-per-connection', all(k <= 1 for k in obs['kexinits'])
 
 
+class CappedNet(AE.FakeNet):
+    """scripted network that refuses to hand out more than CAP sockets (a run that keeps reconnecting is cut off and reported)"""
+    CAP = 60
+
+    def socket(self, *a, **k):
+        if len(self.made) >= self.CAP:
+            raise RuntimeError('more than %d connections opened' % self.CAP)
+        return AE.FakeNet.socket(self, *a, **k)
+
+
 class Orchestration(Harness):
     """real audit(): phases in order; the rate check runs exactly when not skipped, with the fixed limits (1.5 s, 38, 3); the DoS features never run
     without their options; every socket created is closed when audit() returns."""
@@ -728,6 +738,11 @@ class Orchestration(Harness):
         pk = kexinit_pkt(kexl, keyl)
         # probe connections: banner, KEXINIT, one unexpected packet, then the peer closes (or resets) the connection
         conns = [AE.Conn([BANNER, pk])] + [AE.Conn([BANNER, pk, AE.frame(bytes([1]) + inp['x'])], self.end) for _ in range(12)]
+        srv_net = None
+        if self.end.endswith('-before-banner'):
+            # every connection after the first one is accepted and then reset / closed / left silent before any banner (connection throttling, an IPS)
+            conns = conns[:1]
+            srv_net = CappedNet(conns, default_end=self.end.split('-')[0])
         calls = []
         D = M.dheat.DHEat
         o_rate, o_run, o_init = D.dh_rate_test, D.run, D.__init__
@@ -755,7 +770,7 @@ class Orchestration(Harness):
                 finally:
                     S.listen_and_accept = o_acc
             else:
-                r = AE.run_audit(M, conns, skip_rate=self.skip, policy=pol)
+                r = AE.run_audit(M, conns, skip_rate=self.skip, policy=pol, net=srv_net)
         finally:
             D.dh_rate_test, D.run = o_rate, o_run
         made = r['net'].made
@@ -896,6 +911,8 @@ def tasks(tier):
                 T.append(Orchestration(skip, client, policy))
     T.append(Orchestration(True, False, False, 'reset'))
     T.append(Orchestration(True, False, True, 'reset'))
+    for e in ('reset-before-banner', 'close-before-banner', 'timeout-before-banner'):
+        T.append(Orchestration(True, False, False, e))
     for ssh1, ssh2 in ((True, True), (True, False), (False, True)):
         T.append(Fallback(ssh1, ssh2, 3 if q else 5))
     for n in range(C_SHIP + 1):
